@@ -100,6 +100,8 @@ pub enum Mangle {
     Count(u16),
     /// pad with junk until the datagram exceeds max_packet_size by 1 + k bytes
     Oversize(u8),
+    /// append a zero-length custom item (`00 00`) followed by k%4 junk bytes
+    EmptyItem(u8),
 }
 
 #[derive(Clone, Copy, Debug, PartialEq, Eq, Serialize, Deserialize)]
@@ -172,6 +174,8 @@ pub enum Op {
     Broadcast,
     AddBroadcast(ItemSpec),
     AddBroadcastRaw(Vec<u8>),
+    /// an item of `len` bytes (key, version, then filler): for limits far above 64 KiB
+    AddBroadcastBig { len: u32, key: u8, version: u8 },
     Leave,
     ChangeIdentity(IdSel, u8),
     ReuseDown,
@@ -223,6 +227,8 @@ pub struct Runner {
     pub ncalls: usize,
     pub last_ping: Option<(Id, u8)>,
     pub helpers: Vec<Id>,
+    /// skip change_identity onto a foreign address that an active record holds
+    pub no_active_takeover: bool,
 }
 
 fn midx(raw: u16, len: usize) -> usize {
@@ -253,6 +259,7 @@ impl Runner {
             ncalls: 0,
             last_ping: None,
             helpers: Vec::new(),
+            no_active_takeover: false,
         }
     }
 
@@ -388,6 +395,12 @@ impl Runner {
                     bytes[hdr_len..hdr_len + 2].copy_from_slice(&c.to_be_bytes());
                 }
             }
+            Mangle::EmptyItem(k) => {
+                bytes.extend_from_slice(&[0, 0]);
+                for i in 0..(k % 4) {
+                    bytes.push(k.wrapping_add(i));
+                }
+            }
             Mangle::Oversize(k) => {
                 let want = self.inst.cfg.max_packet as usize + 1 + k as usize;
                 while bytes.len() < want {
@@ -489,10 +502,23 @@ impl Runner {
             Op::Broadcast => (Call::Broadcast, Origin::NotTimer),
             Op::AddBroadcast(i) => (Call::AddBroadcast(i.bytes()), Origin::NotTimer),
             Op::AddBroadcastRaw(b) => (Call::AddBroadcast(b.clone()), Origin::NotTimer),
+            Op::AddBroadcastBig { len, key, version } => {
+                let mut b = vec![0x5Au8; *len as usize];
+                if let Some(x) = b.get_mut(0) {
+                    *x = *key;
+                }
+                if let Some(x) = b.get_mut(1) {
+                    *x = *version;
+                }
+                (Call::AddBroadcast(b), Origin::NotTimer)
+            }
             Op::Leave => (Call::Leave, Origin::NotTimer),
             Op::ChangeIdentity(i, r) => {
                 let mut id = self.resolve_id(i);
                 id.renew = *r;
+                if self.no_active_takeover && id.addr != self.own().addr && self.inst.foca.iter_members().any(|m| m.id().addr == id.addr) {
+                    return None;
+                }
                 (Call::ChangeIdentity(id), Origin::NotTimer)
             }
             Op::ReuseDown => (Call::ReuseDown, Origin::NotTimer),
@@ -575,6 +601,8 @@ pub struct Profile {
     pub change_identity: bool,
     /// allow change_identity to a foreign address
     pub change_addr: bool,
+    /// with change_addr: never onto an address an active record holds
+    pub takeover_inactive_only: bool,
     pub leave: bool,
     pub items: bool,
     pub max_len: usize,
@@ -601,6 +629,7 @@ impl Default for Profile {
             any_order: true,
             change_identity: true,
             change_addr: false,
+            takeover_inactive_only: false,
             leave: true,
             items: true,
             max_len: 80,
@@ -707,6 +736,7 @@ pub fn mangle() -> BoxedStrategy<Mangle> {
         2 => any::<u8>().prop_map(Mangle::TrailingByte),
         2 => (any::<u16>(), any::<u8>()).prop_map(|(a, b)| Mangle::Flip(a, b)),
         1 => (any::<u8>(), any::<u8>()).prop_map(|(a, b)| Mangle::Append(a, b)),
+        1 => any::<u8>().prop_map(Mangle::EmptyItem),
         1 => prop_oneof![Just(0u16), Just(1), Just(200), Just(u16::MAX), any::<u16>()].prop_map(Mangle::Count),
     ]
     .boxed()
@@ -876,8 +906,9 @@ pub fn handler_spec() -> BoxedStrategy<HandlerSpec> {
         ],
         prop_oneof![4 => Just(Accept::NewVersionOnly), 2 => Just(Accept::Always), 1 => Just(Accept::Never)],
         prop_oneof![3 => Just(u32::MAX), 2 => any::<u32>()],
+        prop_oneof![2 => Just(false), 1 => Just(true)],
     )
-        .prop_map(|(inval, accept, recipients)| HandlerSpec { enabled: true, inval, accept, recipients })
+        .prop_map(|(inval, accept, recipients, accept_empty)| HandlerSpec { enabled: true, inval, accept, recipients, accept_empty })
         .boxed()
 }
 
